@@ -2,19 +2,23 @@
 # tools/reseed_all.sh [verif-dir] : re-runs EVERY seeded change (seeded/<ID>-m<n>/patch.diff) against the checks of the given
 # copy of /verif (default: a scratch git worktree of HEAD with the build copied in, so /verif itself is not disturbed) and
 # prints one line per seed: detected / NOT DETECTED / error.  Each patch is applied to a scratch worktree of /repo.
+# SHARD=i/N runs every N-th seed starting at the i-th (own scratch copies), so N shards can run side by side.
 set -u
 V=${1:-}
+SH=${SHARD:-0/1}; si=${SH%%/*}; sn=${SH##*/}
 if [ -z "$V" ]; then
-  V=/root/wt/reseed
+  V=/root/wt/reseed$si
   git -C /verif worktree remove --force $V 2>/dev/null
   git -C /verif worktree add -q --detach $V HEAD || exit 2
   rsync -a --exclude .git /verif/coq/ $V/coq/; rsync -a /verif/driver/ $V/driver/; mkdir -p $V/.work
 fi
-R=/tmp/seed/reseed
+R=/tmp/seed/reseed$si
+mkdir -p /tmp/seed
 git -C /repo worktree remove --force $R 2>/dev/null
 git -C /repo worktree add -q --detach $R HEAD || exit 2
-n=0; bad=0
+n=0; bad=0; k=-1
 for d in /verif/seeded/*/; do
+  k=$((k+1)); [ $((k % sn)) -eq $si ] || continue
   s=$(basename $d); id=${s%%-*}
   git -C $R checkout -q -- . ; git -C $R clean -fdq
   if ! git -C $R apply $d/patch.diff 2>/dev/null; then echo "$s: patch does not apply"; bad=$((bad+1)); continue; fi
@@ -25,4 +29,5 @@ for d in /verif/seeded/*/; do
   if [ "$v" -gt 0 ]; then echo "$s: detected ($v VIOLATION lines, $c counterexample replays, exit $rc)"; else echo "$s: NOT DETECTED (exit $rc) $(echo "$out" | tail -2 | cut -c1-200)"; bad=$((bad+1)); fi
 done
 git -C /repo worktree remove --force $R
+[ "$V" = /root/wt/reseed$si ] && git -C /verif worktree remove --force $V
 echo "seeds run: $n, not detected or broken: $bad"
